@@ -96,9 +96,10 @@ impl G {
                 if noc_done {
                     // finish over CASE on the fail-safe's fabric
                     if let Some(s) = self.sess_where(v, |s| s.1 == 'c' && s.2 == fab && !s.3) {
-                        // (a fault that would hit the SECOND write of CommissioningComplete is the open
-                        // finding C08-complete-partial-commit: left to the corpus)
-                        if self.r.chance(1, 4) || v.fault_in >= 2 {
+                        // (a fault that hits the SECOND write of CommissioningComplete: repaired for a fabric
+                        // added under the fail-safe, generated; for a fabric that existed before it is what
+                        // is left of the open finding C08-complete-partial-commit: corpus only)
+                        if self.r.chance(1, 4) || (v.fault_in >= 2 && flags & F_ADD_NOC == 0) {
                             return self.write_op(s);
                         }
                         return format!("complete {}", s);
@@ -180,7 +181,7 @@ impl G {
             20..=27 => self.write_op(s),
             28..=29 => format!("rmnet {} {}", s, self.r.range(1, 3)),
             30..=34 => {
-                if v.fault_in >= 2 {
+                if v.fault_in >= 2 && !v.armed.map(|(_, fl)| fl & F_ADD_NOC != 0).unwrap_or(false) {
                     "poll".into()
                 } else {
                     format!("complete {}", s)
@@ -207,9 +208,9 @@ impl G {
             83..=85 => "flush".into(),
             86..=89 => "restart".into(),
             90..=92 => {
-                // (C07: a fault while a fail-safe is armed can hit the purge of a rollback - open finding
-                // C07-failed-purge-on-rollback, left to the corpus)
-                if c07 && (v.armed.is_some() || self.r.chance(1, 2)) {
+                // (C07: a fault while a fail-safe is armed can hit the purge of a rollback - the repaired
+                // finding C07-failed-purge-on-rollback; generated since the repair)
+                if c07 && self.r.chance(1, 2) {
                     "poll".into()
                 } else {
                     format!("kvfail {}", self.r.range(1, 2))
@@ -286,7 +287,9 @@ fn gen_case(out: &mut Out, cas: &Rc<Vec<Ca>>, id: u64, seed_rng: &mut Rng, prop:
         if kind == "root" && head == "ok" {
             g.staged = op.split(' ').nth(2).and_then(|x| x.parse().ok()).unwrap_or(0);
         }
-        if kind == "complete" && head == "ok" && after.kvlen == before.kvlen + 2 {
+        // (two store mutations: fabric + networks, or - second write failed - fabric + its removal; a crash
+        // between them is the open finding C11-complete-crash-between-writes: corpus only)
+        if kind == "complete" && after.kvlen == before.kvlen + 2 {
             g.forbidden_crash.push(before.kvlen as u64 + 1);
         }
         if ["crash", "corrupt", "coldreset", "fabrecover"].contains(&kind) {
